@@ -30,7 +30,7 @@ pub fn view(src: &str) -> Value {
         };
         let tag = match cont.attrs.tag() { attr::TagType::External => json!("external"), attr::TagType::Internal { tag } => json!({"internal": tag}),
             attr::TagType::Adjacent { tag, content } => json!({"adjacent": [tag, content]}), attr::TagType::None => json!("untagged") };
-        json!({"data": data, "tag": tag, "container_default": !cont.attrs.default().is_none()})
+        json!({"data": data, "tag": tag, "container_default": !cont.attrs.default().is_none(), "transparent": cont.attrs.transparent()})
     };
     json!({"ser": view(Derive::Serialize), "de": view(Derive::Deserialize)})
 }
